@@ -162,9 +162,10 @@ static Q qEinc(Q s, Q c, Q k2) {
 // =============================================================== auxiliary latitudes: the defining relations
 struct Ell {
   double a, f; Q fm1, e2, ee, ep;   // ee = e (oblate), ep = sqrt(-e2) (prolate)
-  Ell(double a_, double f_) : a(a_), f(f_) {
-    fm1 = 1 - (Q)f; e2 = (Q)f * (2 - (Q)f); ee = e2 > 0 ? sqrtq(e2) : 0; ep = e2 < 0 ? sqrtq(-e2) : 0;
-  }
+  Ell(double a_, double f_) : a(a_), f(f_) { init(1 - (Q)f_); }
+  // the ellipsoid given by its semi-axes: 1 - f = b/a exactly (AuxLatitude::axes)
+  Ell(double a_, double b_, int) : a(a_), f(double(1 - (Q)b_ / (Q)a_)) { init((Q)b_ / (Q)a_); }
+  void init(Q fm1_) { fm1 = fm1_; Q F = 1 - fm1; e2 = F * (2 - F); ee = e2 > 0 ? sqrtq(e2) : 0; ep = e2 < 0 ? sqrtq(-e2) : 0; }
   Q athE(Q x) const { return e2 > 0 ? atanhq(ee * x) / ee : e2 < 0 ? atanq(ep * x) / ep : x; }   // atanh(e x)/e
 };
 enum { PHI = 0, BETA = 1, THETA = 2, MU = 3, CHI = 4, XI = 5 };
@@ -284,15 +285,43 @@ static const LatEll LATELL[] = {
 static const int NLATELL = sizeof(LATELL) / sizeof(LATELL[0]);
 static double latf(int fi) { return 1.0 - ldexp(double(LATELL[fi].P), -LATELL[fi].k); }
 
+// cm = construction mode of the AuxLatitude object: 0 AuxLatitude(a, f); 1 AuxLatitude::axes(a, b) with b = a (1 - f) rounded
+// to a double (the reference ellipsoid is then the one with 1 - f = b/a exactly)
 struct AuxCtx {
-  Ell E; DAuxLatitude aux; Ellipsoid ell;
-  AuxCtx(double a, double f) : E(a, f), aux(a, f), ell(a, f) {}
+  Ell E; DAuxLatitude aux; Ellipsoid ell; AuxLatitude* alt; int cm;
+  AuxCtx(double a, double f) : E(a, f), aux(a, f), ell(a, f), alt(nullptr), cm(0) {}
+  AuxCtx(double a, double f, double b) : E(a, b, 0), aux(a, f), ell(a, f), alt(new AuxLatitude(AuxLatitude::axes(a, b))), cm(1) {}
+  const AuxLatitude& A() const { return alt ? *alt : static_cast<const AuxLatitude&>(aux); }
 };
-static AuxCtx& ctx_for(double a, double f) {
-  static thread_local map<pair<double, double>, AuxCtx*> cache;
-  auto key = make_pair(a, f); auto it = cache.find(key);
+static AuxCtx& ctx_for(double a, double f, int cm = 0) {
+  static thread_local map<pair<pair<double, double>, int>, AuxCtx*> cache;
+  auto key = make_pair(make_pair(a, f), cm); auto it = cache.find(key);
   if (it != cache.end()) return *it->second;
-  AuxCtx* c = new AuxCtx(a, f); cache[key] = c; return *c;
+  AuxCtx* c = cm == 1 ? new AuxCtx(a, f, a * (1 - f)) : new AuxCtx(a, f); cache[key] = c; return *c;
+}
+
+// Input classes of the known defects at the two ends of the tangent range (exact conversions of generic angles), computed from
+// the flattening, the kinds of latitude and the input tangent only; k_a = 3/2, 2, 4/3 is the exponent of the documented start
+// value tan(zeta) / (1-f)^k_a of the Newton iteration from MU, CHI, XI:
+//  aux-newton-start-underflow    a in {MU, CHI, XI}, f < 0, tan(zeta) (1-f)^-k_a < 2^-1073 (the start value rounds to 0 or to the last denormals)
+//  aux-newton-trial-overflow     a in {MU, CHI, XI}, f > 0, tan(zeta) (1-f)^-k_a >= 2^1023 (the start value overflows);
+//                                a = CHI, f < 0, tan(zeta) (1-f)^-2 exp(e' atan e') >= 2^1023, e'^2 = -e^2 (tan(chi) of the start value overflows)
+//  aux-conformal-half-underflow  f > 0, a = CHI or b = CHI, (1-f)^2 tan(phi) < 2^-1073 (tan(phi)/2, (1-f) tan(phi) underflow in Conformal)
+//  aux-newton-trial-underflow    f > 0, a in {MU, XI}, b != CHI, (1-f)^2 tan(phi) < 2^-1073 (b E(beta) resp. q(phi) underflow at the trial point)
+// where tan(phi) is the binary128 reference value for the input.
+static const char* kf_extreme(const Ell& E, int a, int b, int m, int zc, Q tz) {
+  if (m != 1 || zc != 1 || a == b || E.e2 == 0) return nullptr;
+  Q lf = log2q(E.fm1), lt = log2q(tz);
+  bool newton = a == MU || a == CHI || a == XI;
+  Q ka = a == MU ? (Q)1.5 : a == CHI ? (Q)2 : (Q)4 / 3;
+  if (newton && E.e2 < 0 && lt - ka * lf < -1073) return "aux-newton-start-underflow";
+  if (newton && E.e2 > 0 && lt - ka * lf >= 1023) return "aux-newton-trial-overflow";
+  if (a == CHI && E.e2 < 0 && lt - 2 * lf + E.ep * atanq(E.ep) * log2q(expq(1)) >= 1023) return "aux-newton-trial-overflow";
+  if (E.e2 > 0 && (newton || b == CHI)) {
+    Q tau = tauFrom(E, a, tz);
+    if (2 * lf + log2q(tau) < -1073) return (a == CHI || b == CHI) ? "aux-conformal-half-underflow" : "aux-newton-trial-underflow";
+  }
+  return nullptr;
 }
 
 // common part of a conversion record: classes, residual against the definition
@@ -317,33 +346,37 @@ static void conv_obs(AuxCtx& C, int a, int b, int m, const AuxAngle& z, const Au
     }
   }
   r.i("rt", rt).i("ra", ra).i("rq", rq).i("kap", kap).i("kin", kin);
+  const char* kf = kf_extreme(C.E, a, b, m, zc, tz);
+  if (kf) r.str("kf", kf);
 }
 
 static AuxAngle mkang(int s, long long mm, int e, int form) {
   // tangent s * mm * 2^e;  form 0: (y, 1), form 1: (s*mm, 2^-e), pole: mm < 0, zero: mm == 0
-  if (mm < 0) return AuxAngle(s >= 0 ? 1.0 : -1.0, 0.0);
-  if (mm == 0) return AuxAngle(s >= 0 ? 0.0 : -0.0, 1.0);
+  // form 2: the pole as (+-inf, 1), the equator as (+-0, 4)
+  if (mm < 0) return form == 2 ? AuxAngle(s >= 0 ? INFINITY : -INFINITY, 1.0) : AuxAngle(s >= 0 ? 1.0 : -1.0, 0.0);
+  if (mm == 0) return AuxAngle(s >= 0 ? 0.0 : -0.0, form == 2 ? 4.0 : 1.0);
   if (form == 1 && e > -1000 && e < 1000) return AuxAngle(double(s * mm), ldexp(1.0, -e));
   return AuxAngle(ldexp(double(s * mm), e), 1.0);
 }
 
-// replay: cv fi a b m s mm e form
+// replay: cv fi a b m s mm e form cm
 static void do_cv(const vector<string>& t) {
   int fi = atoi(t[1].c_str()), a = atoi(t[2].c_str()), b = atoi(t[3].c_str()), m = atoi(t[4].c_str());
   int s = atoi(t[5].c_str()); long long mm = atoll(t[6].c_str()); int e = atoi(t[7].c_str()), form = atoi(t[8].c_str());
-  AuxCtx& C = ctx_for(LATELL[fi].a, latf(fi));
-  AuxAngle z = mkang(s, mm, e, form), o = C.aux.Convert(a, b, z, m != 0);
-  Rec r; r.str("e", "cv").i("fi", fi).li("z", {s, mm, e}).i("form", form);
+  int cm = t.size() > 9 ? atoi(t[9].c_str()) : 0;
+  AuxCtx& C = ctx_for(LATELL[fi].a, latf(fi), cm);
+  AuxAngle z = mkang(s, mm, e, form), o = C.A().Convert(a, b, z, m != 0);
+  Rec r; r.str("e", "cv").i("fi", fi).i("cm", cm).li("z", {s, mm, e}).i("form", form);
   conv_obs(C, a, b, m, z, o, r, false);
   r.li("ot", d3(double(qtan(o))));
   // the degree interface on the same input
-  double zd = z.degrees(), od = C.aux.Convert(a, b, zd, m != 0);
+  double zd = z.degrees(), od = C.A().Convert(a, b, zd, m != 0);
   r.li("zd", d3(zd)).li("od", d3(od));
   r.emit(OUT);
 }
 // replay: path fi a b c m s mm e
 static void path_obs(AuxCtx& C, int a, int b, int c, int m, const AuxAngle& z, Rec& r) {
-  AuxAngle v = C.aux.Convert(a, b, z, m != 0), w = C.aux.Convert(b, c, v, m != 0), d = C.aux.Convert(a, c, z, m != 0);
+  AuxAngle v = C.A().Convert(a, b, z, m != 0), w = C.A().Convert(b, c, v, m != 0), d = C.A().Convert(a, c, z, m != 0);
   r.i("F", Fq(C.E.f)).i("a", a).i("b", b).i("c", c).i("m", m).i("zc", cls_of(z)).i("zs", sgn_of(z))
    .i("wc", cls_of(w)).i("ws", sgn_of(w)).i("dc", cls_of(d)).i("ds", sgn_of(d)).i("lt", ilog2(z.tan()));
   long long rt = -1, ra = -1, kap = -1;
@@ -394,21 +427,38 @@ static AuxAngle rnd_ang(vt::Rng& g) {
   if (g.range(0, 3) == 0 && fabs(t) > 1e-270 && fabs(t) < 1e270) { double x = ldexp(g.uni(1, 2), int(g.range(-30, 30))); return AuxAngle(t * x, x); }
   return AuxAngle(t, 1.0);
 }
+// the same with the special points of the domain mixed in (1 in 8): both poles in the forms (+-y, 0) and (+-inf, x) - "either x or y
+// can be infinite, but not both" - and the equator as (+-0, x)
+static AuxAngle rnd_ang_sp(vt::Rng& g) {
+  if (g.range(0, 7) != 0) return rnd_ang(g);
+  int w = int(g.range(0, 5)); double sg = g.coin() ? 1.0 : -1.0, x = ldexp(g.uni(1, 2), int(g.range(-3, 3)));
+  const double inf = std::numeric_limits<double>::infinity();
+  switch (w) {
+    case 0: return AuxAngle(sg, 0.0);
+    case 1: return AuxAngle(sg * x, 0.0);
+    case 2: return AuxAngle(sg * inf, 1.0);
+    case 3: return AuxAngle(sg * inf, x);
+    case 4: return AuxAngle(sg * 0.0, 1.0);
+    default: return AuxAngle(sg * 0.0, x);
+  }
+}
+// construction mode of the AuxLatitude object (1 in 4: from the semi-axes)
+static int rnd_cm(vt::Rng& g) { return g.range(0, 3) == 0 ? 1 : 0; }
 static void rnd_pair(vt::Rng& g, int& a, int& b) { a = int(g.range(0, 5)); b = int(g.range(0, 5)); if (g.range(0, 7) && a == b) b = (a + 1 + int(g.range(0, 4))) % 6; }
 
 static void rec_cv(vt::Rng& g, long long it) {
-  bool ser = g.coin(); double f = rnd_f(g, ser); AuxCtx& C = ctx_for(rnd_a(g), f);
+  bool ser = g.coin(); double f = rnd_f(g, ser); double aa = rnd_a(g); AuxCtx& C = ctx_for(aa, f, rnd_cm(g));
   int a, b; rnd_pair(g, a, b); int m = ser ? 0 : 1;
-  AuxAngle z = rnd_ang(g), o = C.aux.Convert(a, b, z, m != 0);
-  Rec r; r.str("e", "cv").i("fi", -1);
+  AuxAngle z = rnd_ang_sp(g), o = C.A().Convert(a, b, z, m != 0);
+  Rec r; r.str("e", "cv").i("fi", -1).i("cm", C.cm);
   conv_obs(C, a, b, m, z, o, r, (it % 8) == 0 && (a == MU || b == MU || a == XI || b == XI));
   r.emit(OUT);
 }
 static void rec_rtp(vt::Rng& g) {      // conversion and its inverse
-  bool ser = g.coin(); double f = rnd_f(g, ser); AuxCtx& C = ctx_for(rnd_a(g), f);
+  bool ser = g.coin(); double f = rnd_f(g, ser); double aa = rnd_a(g); AuxCtx& C = ctx_for(aa, f, rnd_cm(g));
   int a, b; rnd_pair(g, a, b); int m = ser ? 0 : 1;
-  AuxAngle z = rnd_ang(g), o = C.aux.Convert(a, b, z, m != 0), w = C.aux.Convert(b, a, o, m != 0);
-  Rec r; r.str("e", "rtp").i("F", Fq(f)).i("a", a).i("b", b).i("m", m).i("zc", cls_of(z)).i("wc", cls_of(w))
+  AuxAngle z = rnd_ang_sp(g), o = C.A().Convert(a, b, z, m != 0), w = C.A().Convert(b, a, o, m != 0);
+  Rec r; r.str("e", "rtp").i("cm", C.cm).i("F", Fq(f)).i("a", a).i("b", b).i("m", m).i("zc", cls_of(z)).i("wc", cls_of(w))
     .i("zs", sgn_of(z)).i("ws", sgn_of(w)).i("lt", ilog2(z.tan()));
   Q tz = qabs(qtan(z)), tw = qabs(qtan(w));
   long long kap = -1;
@@ -417,10 +467,10 @@ static void rec_rtp(vt::Rng& g) {      // conversion and its inverse
   r.emit(OUT);
 }
 static void rec_se(vt::Rng& g) {       // series against exact
-  double f = rnd_f(g, true); AuxCtx& C = ctx_for(rnd_a(g), f);
+  double f = rnd_f(g, true); double aa = rnd_a(g); AuxCtx& C = ctx_for(aa, f, rnd_cm(g));
   int a, b; rnd_pair(g, a, b);
-  AuxAngle z = rnd_ang(g), s = C.aux.Convert(a, b, z, false), x = C.aux.Convert(a, b, z, true);
-  Rec r; r.str("e", "se").i("F", Fq(f)).i("a", a).i("b", b).i("zc", cls_of(z)).i("sc", cls_of(s)).i("xc", cls_of(x))
+  AuxAngle z = rnd_ang_sp(g), s = C.A().Convert(a, b, z, false), x = C.A().Convert(a, b, z, true);
+  Rec r; r.str("e", "se").i("cm", C.cm).i("F", Fq(f)).i("a", a).i("b", b).i("zc", cls_of(z)).i("sc", cls_of(s)).i("xc", cls_of(x))
     .i("ss", sgn_of(s)).i("xs", sgn_of(x)).i("lt", ilog2(z.tan()));
   Q tx = qabs(qtan(x));
   r.i("ra", qU(qabs(dang(qabs((Q)s.y()), qabs((Q)s.x()), tx)))).i("rt", relT(qabs(qtan(s)), tx));
@@ -429,8 +479,8 @@ static void rec_se(vt::Rng& g) {       // series against exact
 static void rec_odd(vt::Rng& g) {
   bool ser = g.coin(); double f = rnd_f(g, ser); AuxCtx& C = ctx_for(rnd_a(g), f);
   int a, b; rnd_pair(g, a, b); int m = ser ? 0 : 1;
-  AuxAngle z = rnd_ang(g), zn(-z.y(), z.x()), o = C.aux.Convert(a, b, z, m != 0), on = C.aux.Convert(a, b, zn, m != 0);
-  double zd = z.degrees(), od = C.aux.Convert(a, b, zd, m != 0), odn = C.aux.Convert(a, b, -zd, m != 0);
+  AuxAngle z = rnd_ang_sp(g), zn(-z.y(), z.x()), o = C.A().Convert(a, b, z, m != 0), on = C.A().Convert(a, b, zn, m != 0);
+  double zd = z.degrees(), od = C.A().Convert(a, b, zd, m != 0), odn = C.A().Convert(a, b, -zd, m != 0);
   Rec r; r.str("e", "odd").i("F", Fq(f)).i("a", a).i("b", b).i("m", m).i("zc", cls_of(z))
     .i("os", sgn_of(o)).i("ons", sgn_of(on)).i("oc", cls_of(o)).i("onc", cls_of(on)).i("rt", relT(-qtan(on), qtan(o)))
     .b("beq", vt::bits(on.y()) == vt::bits(-o.y()) && vt::bits(on.x()) == vt::bits(o.x()))
@@ -446,7 +496,7 @@ static void rec_mono(vt::Rng& g) {
   else if (w == 2) t2 = t1 + fabs(t1) * g.uni(1e-12, 1e-6); else if (w == 3) t2 = t1 + fabs(t1) * g.uni(0.001, 1);
   else t2 = rnd_ang(g).tan();
   if (!std::isfinite(t2)) t2 = t1;
-  AuxAngle za(t1, 1.0), zb(t2, 1.0), oa = C.aux.Convert(a, b, za, m != 0), ob = C.aux.Convert(a, b, zb, m != 0);
+  AuxAngle za(t1, 1.0), zb(t2, 1.0), oa = C.A().Convert(a, b, za, m != 0), ob = C.A().Convert(a, b, zb, m != 0);
   // exact comparisons of tangents (cross products are exact in binary128)
   Q ca = (Q)oa.y() * (Q)ob.x(), cb = (Q)ob.y() * (Q)oa.x();     // tan(ob) - tan(oa) ~ cb - ca (x >= 0)
   int ce = cb > ca ? 1 : cb < ca ? -1 : 0; if (std::signbit(oa.x()) != std::signbit(ob.x())) ce = 9;
@@ -457,19 +507,27 @@ static void rec_mono(vt::Rng& g) {
   r.emit(OUT);
 }
 static void rec_path(vt::Rng& g) {
-  bool ser = g.coin(); double f = rnd_f(g, ser); AuxCtx& C = ctx_for(rnd_a(g), f);
+  bool ser = g.coin(); double f = rnd_f(g, ser); double aa = rnd_a(g); AuxCtx& C = ctx_for(aa, f, rnd_cm(g));
   int a = int(g.range(0, 5)), b = int(g.range(0, 5)), c = int(g.range(0, 5));
-  Rec r; r.str("e", "path").i("fi", -1);
-  path_obs(C, a, b, c, ser ? 0 : 1, rnd_ang(g), r);
+  Rec r; r.str("e", "path").i("fi", -1).i("cm", C.cm);
+  path_obs(C, a, b, c, ser ? 0 : 1, rnd_ang_sp(g), r);
   r.emit(OUT);
 }
 // ToAuxiliary / FromAuxiliary with the derivative, rectifying radius, authalic radius
 static void rec_taux(vt::Rng& g) {
-  double f = rnd_f(g, false); AuxCtx& C = ctx_for(rnd_a(g), f);
-  int b = int(g.range(0, 5)); AuxAngle p = rnd_ang(g);
-  double diff = vt::sentinel(1); AuxAngle o = C.aux.ToAuxiliary(b, p, &diff);
+  double f = rnd_f(g, false); double aa = rnd_a(g); AuxCtx& C = ctx_for(aa, f, rnd_cm(g));
+  int b = int(g.range(0, 5)); AuxAngle p = rnd_ang_sp(g);
+  double diff = vt::sentinel(1); AuxAngle o = C.A().ToAuxiliary(b, p, &diff);
   Q tp = qabs(qtan(p)), T = Tref(C.E, b, tp);
-  Rec r; r.str("e", "taux").i("F", Fq(f)).i("b", b).i("pc", cls_of(p)).i("oc", cls_of(o)).i("ps", sgn_of(p)).i("os", sgn_of(o))
+  if (cls_of(p) == 0 || cls_of(p) == 2) {
+    // the derivative at the equator / at the pole is the limit of tan(eta) / tan(phi) of the defining closed forms (tan(eta) is
+    // asymptotically proportional to tan(phi) at both ends); a record of its own: one observation, one law
+    Q t0 = ldexpq(1, cls_of(p) == 0 ? -400 : 400);
+    Rec d; d.str("e", "tdp").i("cm", C.cm).i("F", Fq(f)).i("b", b).i("pc", cls_of(p)).i("dc", vt::cls(diff)).i("rd", relU((Q)diff, Tref(C.E, b, t0) / t0));
+    if (b == XI && cls_of(p) == 2) d.str("kf", "taux-xi-pole-diff");
+    d.emit(OUT);
+  }
+  Rec r; r.str("e", "taux").i("cm", C.cm).i("F", Fq(f)).i("b", b).i("pc", cls_of(p)).i("oc", cls_of(o)).i("ps", sgn_of(p)).i("os", sgn_of(o))
     .i("rt", relT(qabs(qtan(o)), T));
   long long rd = -1;
   if (cls_of(p) == 1) {   // d tan(eta) / d tan(phi) = (T / tau) * dlog T / dlog tau
@@ -477,13 +535,13 @@ static void rec_taux(vt::Rng& g) {
     rd = relU((Q)diff, T / tp * dl);
   }
   r.i("rd", rd);
-  int niter = -7; AuxAngle z(o.y(), o.x()); AuxAngle back = C.aux.FromAuxiliary(b, z, &niter);
+  int niter = -7; AuxAngle z(o.y(), o.x()); AuxAngle back = C.A().FromAuxiliary(b, z, &niter);
   Q tb = qabs(qtan(back)), tauz = tauFrom(C.E, b, qabs(qtan(z)));
   r.i("rf", relT(tb, tauz)).i("bc", cls_of(back)).i("bs", sgn_of(back)).i("nit", niter);
   r.emit(OUT);
 }
 static void rec_rad(vt::Rng& g) {
-  double f = rnd_f(g, g.coin()); double a = rnd_a(g); AuxCtx& C = ctx_for(a, f);
+  double f = rnd_f(g, g.coin()); double a = rnd_a(g); AuxCtx& C = ctx_for(a, f, rnd_cm(g));
   // rectifying radius: quarter meridian / (pi/2), by the arc-length integral; authalic radius^2: area / 4 pi
   Q sa, sb; arcs(C.E, 1, sa, sb);    // any beta: sa + sb is the quarter meridian for a = 1
   Q R = (Q)a * (sa + sb) / QH;
@@ -492,10 +550,11 @@ static void rec_rad(vt::Rng& g) {
   g_qbad = false; Q qa, qb; arcs_quad(C.E, 1, qa, qb); Q Rq = (Q)a * (qa + qb) / QH;
   Q Aq = integ([&](Q t) { Q s = sinq(t), c = cosq(t); return c * sqrtq(s * s + sq(C.E.fm1) * c * c); }, 0, QH);   // A / (4 pi a^2)
   bool bad = g_qbad;
-  Rec r; r.str("e", "rad").i("F", Fq(f))
-    .i("rx", relU((Q)C.aux.RectifyingRadius(true), R)).i("rs", relU((Q)C.aux.RectifyingRadius(false), R))
-    .i("cx", relU((Q)C.aux.AuthalicRadiusSquared(true), c2)).i("cs", relU((Q)C.aux.AuthalicRadiusSquared(false), c2))
-    .i("rqx", bad ? -1 : relU((Q)C.aux.RectifyingRadius(true), Rq)).i("cqx", bad ? -1 : relU((Q)C.aux.AuthalicRadiusSquared(true), sq((Q)a) * Aq));
+  Rec r; r.str("e", "rad").i("cm", C.cm).i("F", Fq(f)).li("ab", {relU((Q)C.A().EquatorialRadius(), (Q)a), relU((Q)C.A().PolarSemiAxis(), (Q)a * C.E.fm1),
+                                                                     absU((Q)C.A().Flattening(), 1 - C.E.fm1, 1)})
+    .i("rx", relU((Q)C.A().RectifyingRadius(true), R)).i("rs", relU((Q)C.A().RectifyingRadius(false), R))
+    .i("cx", relU((Q)C.A().AuthalicRadiusSquared(true), c2)).i("cs", relU((Q)C.A().AuthalicRadiusSquared(false), c2))
+    .i("rqx", bad ? -1 : relU((Q)C.A().RectifyingRadius(true), Rq)).i("cqx", bad ? -1 : relU((Q)C.A().AuthalicRadiusSquared(true), sq((Q)a) * Aq));
   r.emit(OUT);
 }
 // divided differences (DAuxLatitude): definition (eta2 - eta1) / (zeta2 - zeta1), angles in radians
@@ -503,21 +562,32 @@ static void rec_dd(vt::Rng& g) {
   int kind = int(g.range(0, 3));      // 0 DConvert (series), 1 DParametric, 2 DRectifying, 3 DIsometric
   double f = rnd_f(g, kind == 0); AuxCtx& C = ctx_for(rnd_a(g), f);
   int a = 0, b = kind == 1 ? BETA : kind == 2 ? MU : CHI; if (kind == 0) { rnd_pair(g, a, b); }
+  // point classes ("valid for arbitrary latitude"): 0 generic pair (equal / close / independent), 1 neighbouring doubles,
+  // 2 both at the same pole, 3 both at the equator, 4 one at a pole and one generic
+  int u = int(g.range(0, 15)), pc = u < 10 ? 0 : u < 12 ? 1 : u == 12 ? 2 : u == 13 ? 3 : 4;
+  const double inf = std::numeric_limits<double>::infinity();
   double t1 = tan(g.uni(-1.57, 1.57)), t2; int w = int(g.range(0, 3));
   if (w == 0) t2 = t1; else if (w == 1) t2 = t1 * (1 + g.uni(-1e-3, 1e-3)); else t2 = tan(g.uni(-1.57, 1.57));
-  AuxAngle z1(t1, 1.0), z2(t2, 1.0);
+  if (pc == 1) { if (g.coin()) t1 = (g.coin() ? 1 : -1) * ldexp(g.uni(1, 2), int(g.range(0, 9))); t2 = nextafter(t1, g.coin() ? inf : -inf); }
+  else if (pc == 2) { t1 = t2 = g.coin() ? inf : -inf; }
+  else if (pc == 3) { t1 = g.coin() ? 0.0 : -0.0; t2 = g.coin() ? 0.0 : -0.0; }
+  else if (pc == 4) { t2 = g.coin() ? inf : -inf; if (g.coin()) swap(t1, t2); }
+  auto mk = [&](double t) { return std::isinf(t) ? AuxAngle(t > 0 ? 1.0 : -1.0, 0.0) : AuxAngle(t, 1.0); };
+  AuxAngle z1 = mk(t1), z2 = mk(t2);
   double v = kind == 0 ? C.aux.DConvert(a, b, z1, z2) : kind == 1 ? C.aux.DParametric(z1, z2)
            : kind == 2 ? C.aux.DRectifying(z1, z2) : C.aux.DIsometric(z1, z2);
+  auto zang = [&](double t) { return std::isinf(t) ? (t > 0 ? QH : -QH) : atanq((Q)t); };
   auto eta = [&](double t) {   // signed output angle (or isometric latitude) from input tangent t
     Q tau = tauFrom(C.E, a, qabs((Q)t)), T = Tref(C.E, b, tau);
-    Q e = kind == 3 ? asinhq(T) : atanq(T); return t < 0 ? -e : e; };
-  Q ref;
-  if (t1 == t2) { Q h = (Q)1e-13; Q z = atanq((Q)t1);
-    auto ez = [&](Q zz) { Q tt = tanq(zz); Q tau = tauFrom(C.E, a, qabs(tt)), T = Tref(C.E, b, tau); Q e = kind == 3 ? asinhq(T) : atanq(T); return tt < 0 ? -e : e; };
-    ref = (ez(z + h) - ez(z - h)) / (2 * h);
-  } else ref = (eta(t2) - eta(t1)) / (atanq((Q)t2) - atanq((Q)t1));
-  Rec r; r.str("e", "dd").i("F", Fq(f)).i("k", kind).i("a", a).i("b", b).i("same", t1 == t2)
-    .i("rr", relU((Q)v, ref)).i("rabs", absU((Q)v, ref, 1)).i("sep", qU(qabs(atanq((Q)t2) - atanq((Q)t1)) * (Q)1e-6));
+    Q e = kind == 3 ? asinhq(T) : qang(T); return t < 0 ? -e : e; };
+  auto ez = [&](Q zz) { Q tt = tanq(zz); Q tau = tauFrom(C.E, a, qabs(tt)), T = Tref(C.E, b, tau); Q e = kind == 3 ? asinhq(T) : atanq(T); return tt < 0 ? -e : e; };
+  Q ref; bool infexp = kind == 3 && (std::isinf(t1) || std::isinf(t2));     // the isometric latitude is infinite at the poles
+  if (infexp) ref = 1 / (Q)0.0;
+  else if (pc == 2) { Q h = (Q)1e-9; ref = (QH - ez(QH - h)) / h; }          // eta(pi/2 + h) = pi - eta(pi/2 - h): a central difference
+  else if (t1 == t2) { Q h = (Q)1e-13; Q z = atanq((Q)t1); ref = (ez(z + h) - ez(z - h)) / (2 * h); }
+  else ref = (eta(t2) - eta(t1)) / (zang(t2) - zang(t1));
+  Rec r; r.str("e", "dd").i("F", Fq(f)).i("k", kind).i("a", a).i("b", b).i("same", t1 == t2).i("pc", pc).i("vc", vt::cls(v)).b("ie", infexp)
+    .i("rr", infexp ? -1 : relU((Q)v, ref)).i("rabs", infexp ? -1 : absU((Q)v, ref, 1)).i("sep", qU(qabs(zang(t2) - zang(t1)) * (Q)1e-6));
   r.emit(OUT);
 }
 
@@ -711,10 +781,30 @@ struct LegRef {
     return n == 0 ? v : 2 * n * complete(kind) + v;
   }
 };
+// construction mode of the EllipticFunction object (all documented ways to set the parameters):
+// 0 four-argument constructor; 1 two-argument constructor; 2 default constructor, then Reset(k2, alpha2);
+// 3 an object that held other parameters, then Reset(k2, alpha2, kp2, alphap2).  Modes 1 and 2 are only possible when the
+// complements 1 - k2, 1 - alpha2 computed in doubles are the requested kp2, alphap2 (otherwise mode 0 is used instead).
+static thread_local int g_cm = 0;
+static bool ep_exact(const EP& p) { return 1 - p.k2 == p.kp2 && 1 - p.a2 == p.ap2; }
+static int ep_mode(const EP& p, int cm) { return ((cm == 1 || cm == 2) && !ep_exact(p)) ? 0 : cm; }
+static EllipticFunction mkell(const EP& p) {
+  switch (ep_mode(p, g_cm)) {
+    case 1: return EllipticFunction(p.k2, p.a2);
+    case 2: { EllipticFunction e; e.Reset(p.k2, p.a2); return e; }
+    case 3: { EllipticFunction e(0.75, -3.0, 0.25, 4.0); double sn, cn, dn; e.sncndn(0.3, sn, cn, dn); e.Reset(p.k2, p.a2, p.kp2, p.ap2); return e; }
+    default: return EllipticFunction(p.k2, p.a2, p.kp2, p.ap2);
+  }
+}
 static void ep_fields(Rec& r, const EP& p) {
   r.i("k2s", sgn(p.k2)).i("k2e", ilog2(p.k2)).i("kp2e", ilog2(p.kp2)).i("a2s", sgn(p.a2)).i("a2e", ilog2(p.a2)).i("ap2e", ilog2(p.ap2));
+  // the parameters as requested and as reported by the inspectors of the object
+  EllipticFunction e = mkell(p);
+  r.i("cm", ep_mode(p, g_cm)).li("pin", {sgn(p.k2), ilog2(p.k2), d3(p.kp2)[1], d3(p.kp2)[2], d3(p.kp2)[3], sgn(p.a2), ilog2(p.a2), d3(p.ap2)[1], d3(p.ap2)[2], d3(p.ap2)[3]})
+   .li("insp", {sgn(e.k2()), ilog2(e.k2()), d3(e.kp2())[1], d3(e.kp2())[2], d3(e.kp2())[3], sgn(e.alpha2()), ilog2(e.alpha2()), d3(e.alphap2())[1], d3(e.alphap2())[2],
+                d3(e.alphap2())[3]})
+   .b("ieq", vt::bits(e.k2()) == vt::bits(p.k2) && vt::bits(e.kp2()) == vt::bits(p.kp2) && vt::bits(e.alpha2()) == vt::bits(p.a2) && vt::bits(e.alphap2()) == vt::bits(p.ap2));
 }
-static EllipticFunction mkell(const EP& p) { return EllipticFunction(p.k2, p.a2, p.kp2, p.ap2); }
 
 static void obs_ec(const EP& p, Rec& r) {
   EllipticFunction e = mkell(p); LegRef R(p);
@@ -791,6 +881,21 @@ static void obs_ei(const EP& p, double phi, Rec& r) {
       tr.push_back(x);
     } }
   r.li("tr", tr);
+  // the same interface at the four cardinal points, where sn and cn are exact: phi = 0, pi/2, pi, -pi/2 "as though phi in (-pi, pi]":
+  // X = 0, X_c, 2 X_c, -X_c, and the periodic parts vanish.  -1: the complete integral is infinite (judged by the ec records).
+  vector<long long> cd, cdd;
+  { static const double CS[4][2] = {{0.0, 1.0}, {1.0, 0.0}, {0.0, -1.0}, {-1.0, 0.0}}; static const int MULT[4] = {0, 1, 2, -1};
+    for (int j = 0; j < 4; ++j) {
+      double s1 = CS[j][0], c1 = CS[j][1], d1 = e.Delta(s1, c1);
+      double tv[6] = {e.F(s1, c1, d1), e.E(s1, c1, d1), e.D(s1, c1, d1), e.Pi(s1, c1, d1), e.G(s1, c1, d1), e.H(s1, c1, d1)};
+      double dw[6] = {e.deltaF(s1, c1, d1), e.deltaE(s1, c1, d1), e.deltaD(s1, c1, d1), e.deltaPi(s1, c1, d1), e.deltaG(s1, c1, d1), e.deltaH(s1, c1, d1)};
+      for (int k = 0; k < 6; ++k) {
+        long long x = -1, y = -1;
+        if (leg_finite(p, k)) { g_qbad = false; Q q = R.complete(k); if (!g_qbad) { x = MULT[j] == 0 ? absU((Q)tv[k], 0, 1) : relU((Q)tv[k], MULT[j] * q); y = absU((Q)dw[k], 0, 1); } }
+        cd.push_back(x); cdd.push_back(y);
+      }
+    } }
+  r.li("cd", cd).li("cdd", cdd);
 }
 // inverse of E, Jacobi amplitude and elliptic functions
 static void obs_ej(const EP& p, double x, Rec& r) {
@@ -828,9 +933,10 @@ static void obs_ej(const EP& p, double x, Rec& r) {
     } else r.li("snj", {-1, -1, -1, -1, -1});
   } else {
     double sn, cn, dn; e.sncndn(x, sn, cn, dn); double phi = e.am(x);
+    double s4, c4, d4, phi4 = e.am(x, s4, c4, d4);      // the other overload: sn = tanh, cn = dn = sech
     Q t = tanhq((Q)x), ch = 1 / coshq((Q)x);
-    r.i("amu", relU((Q)phi, atanq(sinhq((Q)x)))).i("amp", -1).b("ameq", true)
-     .li("amj", {-1, -1, -1}).li("snj", {absU((Q)sn, t, 1), absU((Q)cn, ch, 1), absU((Q)dn, ch, 1), -1, -1});
+    r.i("amu", relU((Q)phi, atanq(sinhq((Q)x)))).i("amp", -1).b("ameq", vt::bits(phi) == vt::bits(phi4))
+     .li("amj", {absU((Q)s4, t, 1), absU((Q)c4, ch, 1), relU((Q)d4, ch)}).li("snj", {absU((Q)sn, t, 1), absU((Q)cn, ch, 1), absU((Q)dn, ch, 1), -1, -1});
   }
 }
 
@@ -901,7 +1007,7 @@ static void rec_den(vt::Rng& g) {
   else if (w == 2) t = ldexp(g.uni(1, 2), int(g.range(500, 800)));
   else t = ldexp(g.uni(1, 2), int(g.range(800, 1023)));
   if (g.coin()) t = -t;
-  AuxAngle z(t, 1.0), o = C.aux.Convert(a, b, z, m != 0);
+  AuxAngle z(t, 1.0), o = C.A().Convert(a, b, z, m != 0);
   Rec r; r.str("e", "den").i("fi", -1);
   conv_obs(C, a, b, m, z, o, r, false);
   r.emit(OUT);
@@ -916,6 +1022,7 @@ static void rnd_par(vt::Rng& g, double& c, double& cp) {     // (k2, kp2) or (al
   c = 1 - cp;
 }
 static double rnd_arg(vt::Rng& g) {
+  if (g.range(0, 24) == 0) return g.coin() ? 0.0 : -0.0;
   int w = int(g.range(0, 9));
   if (w < 4) return g.uni(-1.5707963, 1.5707963); if (w < 6) return g.uni(-7, 7); if (w < 8) return g.uni(-100, 100);
   if (w == 8) return ldexp(g.uni(1, 2), -int(g.range(1, 60))) * (g.coin() ? 1 : -1);
@@ -923,6 +1030,7 @@ static double rnd_arg(vt::Rng& g) {
 }
 static void rec_ell3(vt::Rng& g, int kind) {
   EP p; rnd_par(g, p.k2, p.kp2); rnd_par(g, p.a2, p.ap2); double x = rnd_arg(g);
+  g_cm = int(g.range(0, 3));
   Rec r;
   if (kind == 0) { r.str("e", "ec"); obs_ec(p, r); } else if (kind == 1) { r.str("e", "ei"); obs_ei(p, x, r); } else { r.str("e", "ej"); obs_ej(p, x, r); }
   r.emit(OUT);
@@ -938,10 +1046,108 @@ static void rec_rc(vt::Rng& g) {
   Rec r; r.str("e", "rc").i("lat", 0); obs_rc(fn, a, r); r.emit(OUT);
 }
 
+// =============================================================== AuxAngle observations (the class itself)
+// angle between the directions (gy, gx) and (ry, rx), full circle, infinite components allowed ("either, but not both")
+static Q dang2(Q gy, Q gx, Q ry, Q rx) {
+  if (qinf(gy)) { gy = gy > 0 ? 1 : -1; gx = 0; } else if (qinf(gx)) { gx = gx > 0 ? 1 : -1; gy = 0; }
+  if (qinf(ry)) { ry = ry > 0 ? 1 : -1; rx = 0; } else if (qinf(rx)) { rx = rx > 0 ? 1 : -1; ry = 0; }
+  Q sg = qmax(qabs(gy), qabs(gx)), sr = qmax(qabs(ry), qabs(rx));
+  if (sg == 0 || sr == 0 || qnan(sg) || qnan(sr)) return 0 / (Q)0.0;
+  gy /= sg; gx /= sg; ry /= sr; rx /= sr;
+  return atan2q(gy * rx - gx * ry, gx * rx + gy * ry);
+}
+static double rnd_comp(vt::Rng& g) { return (g.coin() ? 1 : -1) * ldexp(g.uni(1, 2), int(g.range(-40, 40))); }
+static void rec_ang(vt::Rng& g) {
+  const double inf = std::numeric_limits<double>::infinity();
+  double y = rnd_comp(g), x = rnd_comp(g); int w = int(g.range(0, 11)), sc = 0;     // sc: 0 generic, 1 a zero component, 2 an infinite component
+  if (w == 0) { y = g.coin() ? 0.0 : -0.0; sc = 1; } else if (w == 1) { x = g.coin() ? 0.0 : -0.0; sc = 1; }
+  else if (w == 2) { y = g.coin() ? inf : -inf; sc = 2; } else if (w == 3) { x = g.coin() ? inf : -inf; sc = 2; }
+  else if (w == 4) { y = x * tan(g.uni(-1.5707, 1.5707)); }
+  AuxAngle z(y, x), n = z.normalized();
+  Q ang = atan2q((Q)y, (Q)x);
+  Rec r; r.str("e", "ang").i("sc", sc).li("sg", {sgn(y) * (std::signbit(y) && y == 0 ? 0 : 1), sgn(x)});
+  // normalized(): on the unit circle, same direction, component signs kept
+  r.i("nr", absU(hypotq((Q)n.y(), (Q)n.x()), 1, 1)).i("nd", qU(qabs(dang2((Q)n.y(), (Q)n.x(), (Q)y, (Q)x))))
+   .b("ns", std::signbit(n.y()) == std::signbit(y) && std::signbit(n.x()) == std::signbit(x));
+  // accessors against their definitions (relative: angles near the cardinal points keep their accuracy)
+  r.i("ad", relU((Q)z.degrees(), ang * 180 / QPI)).i("ar", relU((Q)z.radians(), ang));
+  { Q t = (Q)z.tan(); r.i("al", qinf(t) || x == 0 ? -1 : relU((Q)z.lam(), asinhq(t))).i("ald", qinf(t) || x == 0 ? -1 : relU((Q)z.lamd(), asinhq(t) * 180 / QPI))
+      .b("at", vt::bits(z.tan()) == vt::bits(y / x)); }
+  // factories: degrees(d), radians(r), lam(psi), lamd(psid): direction / tangent against the definitions, and the round trips
+  { double d = w < 6 ? g.uni(-180, 180) : w < 8 ? double(g.range(-180, 180)) : (g.coin() ? 1 : -1) * ldexp(g.uni(1, 2), int(g.range(-60, 7)));
+    if (fabs(d) > 180) d = 180;
+    AuxAngle a = AuxAngle::degrees(d); Q th = (Q)d * QPI / 180;
+    r.i("fd", qU(qabs(dang2((Q)a.y(), (Q)a.x(), sinq(th), cosq(th))))).i("fdt", fabs(d) <= 45 ? relU(qtan(a), tanq(th)) : -1).i("fdb", relU((Q)a.degrees(), (Q)d));
+    double rr = d * 0.017453292519943295; AuxAngle b = AuxAngle::radians(rr);
+    r.i("fr", qU(qabs(dang2((Q)b.y(), (Q)b.x(), sinq((Q)rr), cosq((Q)rr))))).i("frt", fabs(rr) <= 0.78 ? relU(qtan(b), tanq((Q)rr)) : -1).i("frb", relU((Q)b.radians(), (Q)rr));
+    double psi = (g.coin() ? 1 : -1) * ldexp(g.uni(1, 2), int(g.range(-30, 0))), psd = psi * 57.29577951308232;
+    AuxAngle l = AuxAngle::lam(psi), ld = AuxAngle::lamd(psd);
+    r.i("fl", relU(qtan(l), sinhq((Q)psi))).i("flb", relU((Q)l.lam(), (Q)psi)).i("fld", relU(qtan(ld), sinhq((Q)psd * QPI / 180))).i("fldb", relU((Q)ld.lamd(), (Q)psd)); }
+  // copyquadrant(p): the magnitudes of *this with the signs of p
+  { AuxAngle p(rnd_comp(g), rnd_comp(g)), c = z.copyquadrant(p);
+    r.b("cq", std::signbit(c.y()) == std::signbit(p.y()) && std::signbit(c.x()) == std::signbit(p.x()) &&
+              vt::bits(fabs(c.y())) == vt::bits(fabs(y)) && vt::bits(fabs(c.x())) == vt::bits(fabs(x))); }
+  // a += b: the angle of the sum (finite components: "Neither *this nor p should have an infinite component")
+  { double y1 = std::isinf(y) ? 1.0 : y, x1 = std::isinf(x) ? 1.0 : x; if (std::isinf(y)) x1 = 0; if (std::isinf(x)) y1 = 0;
+    AuxAngle a(y1, x1), b(rnd_comp(g), rnd_comp(g)); if (g.range(0, 7) == 0) b = AuxAngle(g.coin() ? 0.0 : -0.0, fabs(b.x()));
+    Q ey = (Q)y1 * (Q)b.x() + (Q)x1 * (Q)b.y(), ex = (Q)x1 * (Q)b.x() - (Q)y1 * (Q)b.y();
+    AuxAngle c(a); c += b;
+    r.i("pa", qU(qabs(dang2((Q)c.y(), (Q)c.x(), ey, ex)))); }
+  { AuxAngle q = AuxAngle::NaN(); r.b("nn", std::isnan(q.y()) && std::isnan(q.x())); }
+  r.emit(OUT);
+}
+// replay: angl op y1 x1 j1 y2 x2 j2 - small integer components scaled by 2^j (j = 99: the non-zero component is infinite)
+static double lat_comp(int v, int j) { return v == 0 ? 0.0 : j == 99 ? (v > 0 ? INFINITY : -INFINITY) : ldexp(double(v), j); }
+static void do_angl(const vector<string>& t) {
+  int op = atoi(t[1].c_str()), y1 = atoi(t[2].c_str()), x1 = atoi(t[3].c_str()), j1 = atoi(t[4].c_str()), y2 = atoi(t[5].c_str()), x2 = atoi(t[6].c_str()), j2 = atoi(t[7].c_str());
+  AuxAngle a(lat_comp(y1, j1), lat_comp(x1, j1)), b(lat_comp(y2, j2), lat_comp(x2, j2)), c(a);
+  double deg = 0;
+  switch (op) {
+    case 0: c = a.normalized(); break;
+    case 1: c = a.copyquadrant(b); break;
+    case 2: c += b; break;
+    case 3: deg = a.degrees(); break;                    // accessor at a cardinal direction
+    default: c = AuxAngle::degrees(90.0 * y1); deg = c.degrees(); break;     // factory at a multiple of 90 degrees (y1 = -2..2)
+  }
+  // results as integers after removing the scale 2^(j1) (ops 0, 1, 3, 4) or 2^(j1 + j2) (op 2); ex: the scaling was exact
+  int js = (op == 2 ? j1 + j2 : op == 1 ? j1 : 0); double ry = ldexp(c.y(), -js), rx = ldexp(c.x(), -js);
+  bool ex = ry == nearbyint(ry) && rx == nearbyint(rx) && fabs(ry) < 1e6 && fabs(rx) < 1e6;
+  Rec r; r.str("e", "angl").i("op", op).li("p", {y1, x1, j1, y2, x2, j2}).b("ex", ex).i("ry", ex ? (long long) ry : 0).i("rx", ex ? (long long) rx : 0)
+    .li("deg", d3(deg));
+  if (op == 2 && y2 == 0 && x2 < 0) r.str("kf", "ang-add-halfturn");
+  r.emit(OUT);
+}
+// replay: sing which - the global instantiations: 0 AuxLatitude::WGS84(), 1 Ellipsoid::WGS84(); parameters as integer limbs and
+// bit-for-bit agreement of every inspector / conversion with an object built from the documented constants
+static void do_sing(const vector<string>& t) {
+  int which = atoi(t[1].c_str()); double a, f; vector<long long> same;
+  auto eq = [&](double u, double v) { same.push_back(vt::bits(u) == vt::bits(v) ? 1 : 0); };
+  if (which == 0) {
+    const AuxLatitude& W = AuxLatitude::WGS84(); AuxLatitude R(Constants::WGS84_a(), Constants::WGS84_f());
+    a = W.EquatorialRadius(); f = W.Flattening();
+    eq(W.PolarSemiAxis(), R.PolarSemiAxis()); eq(W.RectifyingRadius(true), R.RectifyingRadius(true)); eq(W.RectifyingRadius(false), R.RectifyingRadius(false));
+    eq(W.AuthalicRadiusSquared(true), R.AuthalicRadiusSquared(true)); eq(W.AuthalicRadiusSquared(false), R.AuthalicRadiusSquared(false));
+    for (int k = 1; k <= 5; ++k) for (int m = 0; m < 2; ++m) { eq(W.Convert(0, k, 37.5, m != 0), R.Convert(0, k, 37.5, m != 0)); eq(W.Convert(k, 0, -61.25, m != 0), R.Convert(k, 0, -61.25, m != 0)); }
+  } else {
+    const Ellipsoid& W = Ellipsoid::WGS84(); Ellipsoid R(Constants::WGS84_a(), Constants::WGS84_f());
+    a = W.EquatorialRadius(); f = W.Flattening();
+    eq(W.PolarRadius(), R.PolarRadius()); eq(W.QuarterMeridian(), R.QuarterMeridian()); eq(W.Area(), R.Area()); eq(W.Volume(), R.Volume());
+    eq(W.SecondFlattening(), R.SecondFlattening()); eq(W.ThirdFlattening(), R.ThirdFlattening()); eq(W.EccentricitySq(), R.EccentricitySq());
+    eq(W.SecondEccentricitySq(), R.SecondEccentricitySq()); eq(W.ThirdEccentricitySq(), R.ThirdEccentricitySq());
+    eq(W.RectifyingLatitude(37.5), R.RectifyingLatitude(37.5)); eq(W.MeridianDistance(-61.25), R.MeridianDistance(-61.25)); eq(W.CircleRadius(37.5), R.CircleRadius(37.5));
+    eq(W.IsometricLatitude(37.5), R.IsometricLatitude(37.5)); eq(W.NormalCurvatureRadius(37.5, 20), R.NormalCurvatureRadius(37.5, 20));
+  }
+  long long ahi, alo, fhi, flo; vt::limbs((long double) a, 1e-9L, ahi, alo); vt::limbs(1 / (long double) f, 1e-9L, fhi, flo);
+  // a in nanometres [hi, lo] (value hi * 1e9 + lo), 1/f in units of 1e-9 likewise
+  Rec r; r.str("e", "sing").i("which", which).li("a", {ahi, alo}).li("rf", {fhi, flo}).li("same", same);
+  r.emit(OUT);
+}
+
 // =============================================================== main: replay of TLC vectors / seeded records
 static double dy(const vector<string>& t, size_t i) { return ldexp(double(atoll(t[i].c_str())), atoi(t[i + 1].c_str())); }
-static void do_ell(const vector<string>& t) {      // ec|ei|ej kp2m kp2e ap2m ap2e [xm xe]; k2 = 1 - kp2, alpha2 = 1 - alphap2
+static void do_ell(const vector<string>& t) {      // ec kp2m kp2e ap2m ap2e cm | ei|ej kp2m kp2e ap2m ap2e xm xe cm; k2 = 1 - kp2, alpha2 = 1 - alphap2
   EP p; p.kp2 = dy(t, 1); p.k2 = 1 - p.kp2; p.ap2 = dy(t, 3); p.a2 = 1 - p.ap2;
+  { size_t ci = t[0] == "ec" ? 5 : 7; g_cm = t.size() > ci ? atoi(t[ci].c_str()) : 0; }
   Rec r; r.str("e", t[0]);
   vector<long long> par; for (int i = 1; i <= 4; ++i) par.push_back(atoll(t[i].c_str()));
   r.li("par", par);
@@ -956,14 +1162,14 @@ static void do_rc(const vector<string>& t) {
 }
 static uint64_t mix64(uint64_t z) { z = (z ^ (z >> 30)) * 0xBF58476D1CE4E5B9ULL; z = (z ^ (z >> 27)) * 0x94D049BB133111EBULL; return z ^ (z >> 31); }
 static void one_record(vt::Rng& g, long long it) {
-  static const int W[] = {200, 120, 120, 60, 100, 80, 60, 5, 50, 25, 5, 55, 45, 25, 10, 8, 12, 20};   // per mille
+  static const int W[] = {195, 115, 115, 60, 100, 80, 60, 5, 50, 25, 5, 55, 45, 25, 10, 8, 12, 20, 15};   // per mille
   int u = int(g.range(0, 999)), k = 0; while (u >= W[k]) { u -= W[k]; ++k; }
   switch (k) {
     case 0: rec_cv(g, it); break; case 1: rec_rtp(g); break; case 2: rec_se(g); break; case 3: rec_odd(g); break;
     case 4: rec_mono(g); break; case 5: rec_path(g); break; case 6: rec_taux(g); break; case 7: rec_rad(g); break;
     case 8: rec_dd(g); break; case 9: rec_den(g); break; case 10: rec_elq(g); break; case 11: rec_elm(g); break;
     case 12: rec_ell(g); break; case 13: rec_elf(g); break; case 14: rec_ell3(g, 0); break; case 15: rec_ell3(g, 1); break;
-    case 16: rec_ell3(g, 2); break; default: rec_rc(g); break;
+    case 16: rec_ell3(g, 2); break; case 17: rec_rc(g); break; default: rec_ang(g); break;
   }
 }
 #include <thread>
@@ -985,6 +1191,7 @@ int main(int argc, char** argv) {
           auto t = vt::split(lines[i]); if (t.empty()) continue;
           if (t[0] == "cv") do_cv(t); else if (t[0] == "path") do_path(t);
           else if (t[0] == "ec" || t[0] == "ei" || t[0] == "ej") do_ell(t); else if (t[0] == "rc") do_rc(t);
+          else if (t[0] == "angl") do_angl(t); else if (t[0] == "sing") do_sing(t);
         }
         fclose(f); OUT = stdout;
       }
